@@ -112,7 +112,7 @@ fn copy_db(src: &str, dst: &str) -> std::io::Result<()> {
         let ent = ent?;
         let name = ent.file_name().to_string_lossy().to_string();
         if name == "meta" || name == "ln" || name == "bbn" || name == "ht" || name == "wal" || name.starts_with("rollback.") {
-            std::fs::copy(ent.path(), format!("{dst}/{name}"))?;
+            crate::image::sparse_copy(&ent.path(), std::path::Path::new(&format!("{dst}/{name}")))?;
         }
     }
     Ok(())
